@@ -488,32 +488,57 @@ def _simulator_facts(repo=None):
             shot_args.append((k.value, ("fresh", ok, parts)))
         else:
             shot_args.append((k.value, ("shared", ast.unparse(v)[:50])))
-    # the sequential branch
-    branch = [st for st in ps.body if isinstance(st, ast.If) and ast.unparse(st.test) == "self.parallel"]
+    # the parallel / sequential dispatch: `if self.parallel:` statements without an else only concern the parallel mode (C09)
+    par = [st for st in ps.body if isinstance(st, ast.If) and ast.unparse(st.test) == "self.parallel"]
+    branch = [st for st in par if st.orelse]
     if len(branch) != 1:
-        raise Unsupported("_perform_simulation: `if self.parallel` not found")
+        raise Unsupported("_perform_simulation: `if self.parallel: ... else: ...` not found exactly once")
+    if par.index(branch[0]) != len(par) - 1:
+        raise Unsupported("_perform_simulation: parallel-only statements after the dispatch")
     seq = branch[0].orelse
     if len(seq) != 1 or not (isinstance(seq[0], ast.For) and ast.unparse(seq[0].iter) == "arg_list" and not seq[0].orelse):
         raise Unsupported("_perform_simulation: the sequential branch is not `for arg in arg_list`")
     loop_calls = sorted({ast.unparse(n.func) for st in seq[0].body for n in ast.walk(st) if isinstance(n, ast.Call)})
     if any(c not in ("_single_shot", "np.square") for c in loop_calls):
         raise Unsupported(f"_perform_simulation: the sequential loop calls {loop_calls}")
-    # nothing outside the branch touches generator-relevant calls: collect every call of the function outside the parallel branch
-    outside = sorted({ast.unparse(n.func) for st in ps.body if st is not branch[0] for n in ast.walk(st) if isinstance(n, ast.Call)})
+    # keys added to the shot arguments in parallel mode only
+    parallel_only_keys = sorted({n.slice.value for st in par for b in st.body for n in ast.walk(b)
+                                 if isinstance(n, ast.Subscript) and isinstance(n.ctx, ast.Store) and isinstance(n.slice, ast.Constant)
+                                 and isinstance(n.value, ast.Name) and n.value.id == "arg"})
+    # every call of the function outside the `if self.parallel` statements
+    outside = sorted({ast.unparse(n.func) for st in ps.body if st not in par for n in ast.walk(st) if isinstance(n, ast.Call)})
     allowed_outside = {"np.zeros", "len", "copy.deepcopy", "self.CircuitClass", "range", "np.square"}
     if any(c not in allowed_outside for c in outside):
         raise Unsupported(f"_perform_simulation calls {[c for c in outside if c not in allowed_outside]} outside the shot loop")
-    # _single_shot: which entries it reads and what it calls
+    for st in ps.body:                                         # the shot arguments are not touched between construction and the loop
+        if st in par:
+            continue
+        for n in ast.walk(st):
+            if isinstance(n, ast.Subscript) and isinstance(n.ctx, ast.Store) and isinstance(n.value, ast.Name) and n.value.id in ("arg", "arg_list"):
+                raise Unsupported("_perform_simulation: the shot arguments are modified outside the parallel-only statements")
+    # _single_shot: which entries it reads and what it calls; `if "<k>" in args: np.random.seed(args["<k>"])` is a reseed that
+    # only happens when the key is present, i.e. (checked) only in parallel mode
     ss = pyexpr.find_function(tree, "_single_shot")
     if [a.arg for a in ss.args.args] != ["args"]:
         raise Unsupported("_single_shot: signature changed")
+    reseed_keys, guarded = [], set()
+    for st in ss.body:
+        if isinstance(st, ast.If) and isinstance(st.test, ast.Compare) and len(st.test.ops) == 1 and isinstance(st.test.ops[0], ast.In) \
+                and isinstance(st.test.left, ast.Constant) and ast.unparse(st.test.comparators[0]) == "args" and not st.orelse \
+                and len(st.body) == 1 and isinstance(st.body[0], ast.Expr) \
+                and ast.unparse(st.body[0].value) == f"np.random.seed(args[{st.test.left.value!r}])":
+            reseed_keys.append(st.test.left.value)
+            guarded |= {id(x) for x in ast.walk(st)}
     reads = sorted({n.slice.value for n in ast.walk(ss) if isinstance(n, ast.Subscript) and isinstance(n.value, ast.Name)
-                    and n.value.id == "args" and isinstance(n.slice, ast.Constant)})
-    ss_calls = sorted({ast.unparse(n.func) for n in ast.walk(ss) if isinstance(n, ast.Call)})
+                    and n.value.id == "args" and isinstance(n.slice, ast.Constant) and id(n) not in guarded})
+    ss_calls = sorted({ast.unparse(n.func) for n in ast.walk(ss) if isinstance(n, ast.Call) and id(n) not in guarded})
     if any(c not in ("_apply_gates_on_circuit", "circ.statevector", "np.square", "np.absolute") for c in ss_calls):
         raise Unsupported(f"_single_shot calls {ss_calls}")
     if sorted(k for k, _ in shot_args) != reads:
         raise Unsupported(f"_single_shot reads {reads}, the shot arguments are {sorted(k for k, _ in shot_args)}")
+    for k in reseed_keys:
+        if k in [x for x, _ in shot_args] or k not in parallel_only_keys:
+            raise Unsupported(f"_single_shot reseeds from args[{k!r}], which is not a parallel-only entry of the shot arguments")
     _, free = _self_reads_and_globals(ss)
     if any(g not in ("np", "_apply_gates_on_circuit") for g in free):
         raise Unsupported(f"_single_shot reads global names {free}")
@@ -522,21 +547,25 @@ def _simulator_facts(repo=None):
         if not isinstance(st, (ast.Import, ast.ImportFrom, ast.ClassDef, ast.FunctionDef)) and not _is_doc(st):
             raise Unsupported(f"module-level state in simulator.py: {ast.unparse(st)[:60]}")
     return {"shot_args": shot_args, "loop_calls": loop_calls, "single_shot_reads": reads, "single_shot_calls": ss_calls,
-            "int_names": sorted(ints), "line": ps.lineno}
+            "int_names": sorted(ints), "line": ps.lineno, "parallel_only_keys": parallel_only_keys, "reseed_keys": reseed_keys}
 
 
-def _entropy_scan(repo=None):
+def _entropy_scan(repo=None, reseed_ok=None):
     """entropy sources / memo decorators in the files a sequential shot runs through (factories.py: symbolic execution)"""
     found = []
     for rel in SHOT_PATH:
         tree = _tree(rel, repo)
         short = rel.split("/")[-1]
         par_ok = set()
-        if rel == SRC_SIM:                                     # `multiprocessing` may only occur inside `if self.parallel:`
+        if rel == SRC_SIM:      # parallel mode (C09): bodies of `if self.parallel:` and the reseed guarded by a parallel-only key
             for n in ast.walk(tree):
                 if isinstance(n, ast.If) and ast.unparse(n.test) == "self.parallel":
                     for st in n.body:
                         par_ok |= {id(x) for x in ast.walk(st)}
+                if isinstance(n, ast.If) and isinstance(n.test, ast.Compare) and len(n.test.ops) == 1 and isinstance(n.test.ops[0], ast.In) \
+                        and isinstance(n.test.left, ast.Constant) and n.test.left.value in (reseed_ok or ()) \
+                        and ast.unparse(n.test.comparators[0]) == "args":
+                    par_ok |= {id(x) for x in ast.walk(n)}
         for n in ast.walk(tree):
             if isinstance(n, (ast.Import, ast.ImportFrom)):
                 mods = [a.name for a in n.names] + ([n.module] if isinstance(n, ast.ImportFrom) and n.module else [])
@@ -546,9 +575,10 @@ def _entropy_scan(repo=None):
                         found.append(f"{short}:{n.lineno} import {m}")
             elif isinstance(n, ast.Attribute):
                 s = ast.unparse(n)
+                if id(n) in par_ok:
+                    continue
                 if s.startswith(("np.random", "numpy.random")) or n.attr in ENTROPY_NAMES or \
-                        (isinstance(n.value, ast.Name) and n.value.id in ENTROPY_ROOTS) or \
-                        (s.startswith("multiprocessing.") and id(n) not in par_ok):
+                        (isinstance(n.value, ast.Name) and n.value.id in ENTROPY_ROOTS) or s.startswith("multiprocessing."):
                     found.append(f"{short}:{n.lineno} {s}")
             elif isinstance(n, ast.Call) and isinstance(n.func, ast.Name) and n.func.id in ({"hash", "id"} | ENTROPY_NAMES):
                 found.append(f"{short}:{n.lineno} {n.func.id}(...)")
@@ -563,7 +593,7 @@ def extract(repo=None):
     fac, sites, ir = _factory_facts(repo)
     gates = _gates_facts(repo)
     sim = _simulator_facts(repo)
-    ent = _entropy_scan(repo)
+    ent = _entropy_scan(repo, sim["reseed_keys"])
     return {"integrate": integ, "state": state, "factories": fac, "draw_sites": sites, "gates": gates, "simulator": sim,
             "entropy": ent, "factories_ir": ir}
 
@@ -604,7 +634,8 @@ def generate(repo=None):
     A(f"`_cache`: {S['cache_created']}.")
     A(f"generator call sites in factories.py: {[f'{s}:{l}' for s, l in ex['draw_sites']]}.")
     A(f"`_perform_simulation` (line {Sim['line']}): shot arguments {Sim['shot_args']}; sequential loop calls {Sim['loop_calls']};")
-    A(f"`_single_shot` reads {Sim['single_shot_reads']} and calls {Sim['single_shot_calls']}. -/")
+    A(f"`_single_shot` reads {Sim['single_shot_reads']} and calls {Sim['single_shot_calls']}; parallel-only shot arguments "
+      f"{Sim['parallel_only_keys']}, reseed guarded by their presence: {Sim['reseed_keys']}. -/")
     A("namespace QG.Gen.Determinism")
     A("open QG.Model.IntegratorCache")
     A("")
